@@ -65,7 +65,7 @@ def effects_of(e, s, has_loops):
 
 
 def search_facts(e, s, fieldpath):
-    """outcome of binary searches on a field along the path: list of ('pos'|'neg', call)"""
+    """outcome of searches (binary_search, or iter().position(|e| *e == key)) on a field along the path: list of ('pos'|'neg', call)"""
     out = []
     for k, v in s.state.facts.items():
         if k[0] == 'tag' and ts.is_search(k[1]):
@@ -73,7 +73,21 @@ def search_facts(e, s, fieldpath):
             ap = terms.access_path(c[2][0]) if c[2] else None
             if ap and ap[0] == 1 and terms.strip_some(ap[1]) == fieldpath:
                 out.append((v, c))
+        elif k[0] == 'tag' and ts.is_position(k[1]):
+            pp = ts.position_parts(e, s.state, k[1])
+            ap = terms.access_path(('ref', pp[0])) if pp and pp[0] is not None else None
+            if ap and ap[0] == 1 and terms.strip_some(ap[1]) == fieldpath:
+                out.append((v, k[1]))
     return out
+
+
+def searched_key(e, st, call):
+    """the key a search call looks for"""
+    if ts.is_position(call):
+        pp = ts.position_parts(e, st, call)
+        return pp[1] if pp else None
+    snap = call[4] if len(call) > 4 else None
+    return ts.strip_ref(snap[1]) if snap and len(snap) > 1 else None
 
 
 def contains_fact(e, s, fieldpath):
@@ -165,7 +179,7 @@ def spec_effect(prog, e, segs, fn, ty, name, rep, roles, has_loops):
                 if oc == 'ok' and sf:
                     # the result is computed from the search (`position.is_some()`): classify the path by the search outcome
                     r0 = s.ret[3][0] if s.ret[0] == 'adt' and s.ret[3] else None
-                    mentions = r0 is not None and bool(terms.find_terms(r0, lambda t: ts.is_search(t) and t == sf[-1][1]))
+                    mentions = r0 is not None and bool(terms.find_terms(r0, lambda t: (ts.is_search(t) or ts.is_position(t)) and t == sf[-1][1]))
                     if not mentions:
                         bad.append('the result is not derived from the search for the validated argument: %s' % e.short(r0, 100))
                         continue
@@ -180,12 +194,14 @@ def spec_effect(prog, e, segs, fn, ty, name, rep, roles, has_loops):
                     if len(ef) != 1 or len(rem) != 1:
                         bad.append('a successful removal must remove exactly one element at the found position; effects: %s' % [(x[0], x[1]) for x in ef])
                         continue
-                    si = ts.search_index(rem[0][2][0])
+                    idx = rem[0][2][0]
+                    si = ts.search_index(idx)
+                    if si is None and isinstance(idx, tuple) and idx and idx[0] == 'pos' and ts.is_position(idx[1]):
+                        si = (idx[1], 'pos')
                     if not (si and si[1] == 'pos' and sf and sf[-1][1] == si[0]):
                         bad.append('the removed index is not the position found by the search')
                     else:
-                        snap = si[0][4] if len(si[0]) > 4 else None
-                        keyv = ts.strip_ref(snap[1]) if snap else None
+                        keyv = searched_key(e, s.state, si[0])
                         if keyv is None or arg_is_validated(e, s.state, keyv, role, roles):
                             bad.append('the searched key is not the validated argument')
                 else:
